@@ -206,6 +206,21 @@ Definition diff (o : opts) (old new : option index) (fuel : nat) : dres :=
       else DOk cs
   end.
 
+(* ---- build histories ------------------------------------------------------------------------------------ *)
+(* A real index (in memory or SQLite backed) is built by a history of `index[k] = e`, `del index[k]` /
+   `pop(k)` / `delete_node(leaf)`, reads, commits and close + reopen.  The model of an index is the FINAL
+   key -> entry map of that history and nothing else: [diff] is a function of the two final maps by
+   construction (Proofs: [diff_final_map_only]).  The harness builds real indexes through histories,
+   hands the history to [final_map] and compares. *)
+Inductive hop := HSet (k : key) (e : ientry) | HDel (k : key).
+Definition drop_key (k : key) (i : index) : index := filter (fun kv => negb (key_eqb (fst kv) k)) i.
+Definition apply_hop (i : index) (op : hop) : index :=
+  match op with
+  | HSet k e => (k, e) :: drop_key k i
+  | HDel k => drop_key k i
+  end.
+Definition final_map (h : list hop) : index := fold_left apply_hop h [].
+
 (* ---- `roots` (diff.py 175-194): one queue item per root, `roots or [()]` ------------------------------ *)
 Definition root_items_at (i : option index) (r : key) : items :=
   match i with
